@@ -86,7 +86,31 @@ impl<'a> Name<'a> {
     c.wrap(rel, NAME_IMPL)
 
     # ---- WireFormat for Name
-    c.mark(rel, NAME_WF, 'len', '#[verifier::external_body]')
+    # Name::len: R11 + fold invariant (sum of 1 + label length over the prefix)
+    c.sum_loop(rel, NAME_WF, 'len', """
+                invariant
+                    name_ok(self.lv()), self.labels@.len() == self.lv().len(),
+                    0 <= vx_it.index@ <= self.labels@.len(),
+                    vx_sum == wl(self.lv().subrange(0, vx_it.index@ as int)),
+""", body_pre="""
+                proof {
+                    let i = vx_it.index@ as int;
+                    lemma_labels_view_len(self.labels@);
+                    assert(label.lview() == self.lv()[i]);
+                    lemma_run_snoc(self.lv(), i);
+                    lemma_split(self.lv(), i + 1);
+                    lemma_run_len(self.lv().subrange(i + 1, self.lv().len() as int));
+                }
+""")
+    c.contract(rel, NAME_WF, 'len', "", pre_body="""
+        proof {
+            lemma_labels_view_len(self.labels@);
+            assert(self.lv().subrange(0, 0) =~= Seq::<Seq<u8>>::empty());
+        }
+""")
+    c.ghost(rel, NAME_WF, 'len', "vx_sum }", """
+            proof { assert(self.lv().subrange(0, self.lv().len() as int) =~= self.lv()); lemma_run_len(self.lv()); }
+""", where='before')
     c.sub(rel, NAME_WF, NAME_WF + """
     open spec fn wf_ok(&self) -> bool { name_ok(self.lv()) }
     open spec fn wf_enc(&self) -> Seq<u8> { name_enc(self.lv()) }
@@ -97,6 +121,8 @@ impl<'a> Name<'a> {
     open spec fn wf_canon(&self) -> bool { true }
     open spec fn wf_in_rdata() -> bool { true }
     open spec fn wf_nocomp() -> bool { false }
+    open spec fn wf_eqv(&self, other: &Self) -> bool { self.lv() == other.lv() }
+    proof fn lemma_det(data: Seq<u8>, p: int, v1: &Self, e1: int, v2: &Self, e2: int) {}
     proof fn lemma_rt(&self, pre: Seq<u8>) {
         lemma_name_roundtrip(pre, self.lv(), Seq::empty());
         assert(pre + name_enc(self.lv()) + Seq::<u8>::empty() =~= pre + name_enc(self.lv()));
